@@ -90,6 +90,16 @@ def test_fieldmodel_regex_beyond_ascii():
     check("rx-outside-subset", FM.regex_prefix_match("ß", "ß"), None)
 
 
+def test_dataformatmodel_encodings():
+    from cpverif.models import dataformatmodel as DM
+
+    check("encoding-text", DM.expect("delimited", "encoding", "utf-8")[0], DM.ACCEPT)
+    check("encoding-unknown", DM.expect("delimited", "encoding", "klingon")[0], DM.REFUSE)
+    check("encoding-text-to-text-codec", DM.expect("delimited", "encoding", "rot13")[0], DM.REFUSE)
+    check("encoding-bytes-to-bytes-codec", DM.expect("delimited", "encoding", "hex")[0], DM.REFUSE)
+    check("encoding-with-restrictions", DM.expect("delimited", "encoding", "idna")[0], DM.UNJUDGED)
+
+
 def run_all():
     for name, fn in sorted(globals().items()):
         if name.startswith("test_") and callable(fn):
